@@ -8,6 +8,7 @@ INVARIANT ImplBoundsExact
 INVARIANT ImplFeatRight
 INVARIANT ImplAnchorsRight
 INVARIANT LawBoundsOrdered
+INVARIANT LawTimeHasNoCeiling
 INVARIANT LawTimeOnlyBand
 INVARIANT LawBoundsFromTokens
 INVARIANT LawFeat
